@@ -118,6 +118,9 @@ class Runner:
             elif op[0] == "reset":
                 o, info = self.env.reset()
                 rec = ("reset", np.asarray(o).tobytes(), self.observe())
+            elif op[0] == "reset_seed":
+                o, info = self.env.reset(seed=op[1])
+                rec = ("reset", np.asarray(o).tobytes(), self.observe())
             elif op[0] == "step":
                 np.random.seed(op[2])
                 o, r, term, trunc, info = self.env.step(int(op[1]))
@@ -148,8 +151,10 @@ def pilot(source, rng, nops):
     changing = []
     for k in range(nops - 1):
         x = rng.random()
-        if x < 0.08:
+        if x < 0.05:
             op = ("reset",)
+        elif x < 0.09:
+            op = ("reset_seed", rng.randrange(1000))
         elif x < 0.12 and source["modes"]["flat_actions"]:
             op = ("mask",)
         else:
